@@ -207,7 +207,12 @@ fn check_ont(st: &mut Stats, prop: &str, line: &Value, conc: &Concretisation, pa
 
 /// Growth beyond the listed properties (spec/HpoSetOps.tla): path queries (any shortest path is
 /// allowed) and HpoSet operations.  Mismatches are reported under the pseudo property "EXTRA".
-fn check_extras(st: &mut Stats, line: &Value, conc: &Concretisation, ont: &Ontology) {
+fn check_extras(st: &mut Stats, line: &Value, conc: &Concretisation, ont: &Ontology, mode: &str) {
+    let (want_paths, want_queries, want_sets) = (mode == "C11", mode == "C12", mode == "C13");
+    let exp_parents: BTreeMap<u32, Value> = arr(&line["expect"]["terms"])
+        .iter()
+        .map(|t| (conc.get(as_u32(&t["id"])), Value::from(u32_list(&t["parents"]).into_iter().map(|m| conc.get(m)).collect::<Vec<u32>>())))
+        .collect();
     use hpo::annotations::AnnotationId;
     use hpo::term::HpoGroup;
     use hpo::HpoSet;
@@ -216,63 +221,104 @@ fn check_extras(st: &mut Stats, line: &Value, conc: &Concretisation, ont: &Ontol
     for p in arr(&line["paths"]) {
         let (a, b) = (conc.get(as_u32(&p["a"])), conc.get(as_u32(&p["b"])));
         let (Some(ta), Some(tb)) = (ont.hpo(a), ont.hpo(b)) else { continue };
-        st.bump("extra_path_queries", 1);
+        st.bump("pair_queries", 1);
+        st.evaluations += 1;
+        let ids = |g: HpoGroup| -> Vec<u32> { g.iter().map(|x| x.as_u32()).collect() };
+        if want_queries {
+            // C12: ancestor queries are the set algebra of the ancestor sets (ids and resolving variants)
+            let res = |c: hpo::term::group::Combined| -> Vec<u32> { c.iter().map(|t| t.id().as_u32()).collect() };
+            let checks: Vec<(&str, Vec<u32>, Vec<u32>)> = vec![
+                ("common_ancestor_ids", ids(ta.common_ancestor_ids(&tb)), cv(&p["common"])),
+                ("all_common_ancestor_ids", ids(ta.all_common_ancestor_ids(&tb)), cv(&p["commonself"])),
+                ("union_ancestor_ids", ids(ta.union_ancestor_ids(&tb)), cv(&p["union"])),
+                ("all_union_ancestor_ids", ids(ta.all_union_ancestor_ids(&tb)), cv(&p["union"])),
+                ("common_ancestors()", res(ta.common_ancestors(&tb)), cv(&p["common"])),
+                ("all_common_ancestors()", res(ta.all_common_ancestors(&tb)), cv(&p["commonself"])),
+                ("union_ancestors()", res(ta.union_ancestors(&tb)), cv(&p["union"])),
+                ("all_union_ancestors()", res(ta.all_union_ancestors(&tb)), cv(&p["union"])),
+            ];
+            for (what, got, want) in checks {
+                if got != want {
+                    d.push(format!("{what}({a},{b}) = {:?}, expected {:?}", got, want));
+                }
+            }
+        }
+        if !want_paths {
+            continue;
+        }
+        // C11: distances are the spec's (BFS layers / minimum over common ancestors); paths are VALID WALKS of
+        // exactly that length: a chain of parent links for path_to_ancestor, parent/child links for path_to_term
+        let par = |x: u32| -> Vec<u32> { u32_list(&exp_parents[&x]) };
+        let linked = |x: u32, y: u32| -> bool { par(x).contains(&y) || par(y).contains(&x) };
         let updist = as_i64(&p["updist"]);
         let got = ta.distance_to_ancestor(&tb).map(|x| x as i64).unwrap_or(-1);
         if got != updist {
             d.push(format!("distance_to_ancestor({a},{b}) = {got}, expected {updist}"));
         }
-        let allowed: Vec<Vec<u32>> = arr(&p["uppaths"]).iter().map(cv).collect();
-        match ta.path_to_ancestor(&tb) {
-            Some(path) => {
-                let path: Vec<u32> = path.iter().map(|x| x.as_u32()).collect();
-                if !allowed.contains(&path) {
-                    d.push(format!("path_to_ancestor({a},{b}) = {:?}, allowed shortest paths {:?}", path, allowed));
-                }
-            }
-            None => {
-                if !allowed.is_empty() {
-                    d.push(format!("path_to_ancestor({a},{b}) = None, allowed {:?}", allowed));
-                }
-            }
-        }
-        let dist = as_i64(&p["dist"]);
-        let got = ta.distance_to_term(&tb).map(|x| x as i64).unwrap_or(-1);
-        if got != dist {
-            d.push(format!("distance_to_term({a},{b}) = {got}, expected {dist}"));
-        }
-        let allowed: Vec<Vec<u32>> = arr(&p["paths"]).iter().map(cv).collect();
-        match catch(|| ta.path_to_term(&tb)) {
+        match catch(|| ta.path_to_ancestor(&tb)) {
             Ok(Some(path)) => {
                 let path: Vec<u32> = path.iter().map(|x| x.as_u32()).collect();
-                if a != b && dist >= 0 && path.len() as i64 > dist {
-                    // documented as "the shortest path": informational, see TermPathsLineage in HpoSetOps
-                    st.bump("path_to_term_longer_than_distance", 1);
+                let mut cur = a;
+                let mut chain = true;
+                for x in &path {
+                    chain &= par(cur).contains(x);
+                    cur = *x;
                 }
-                if !allowed.contains(&path) {
-                    d.push(format!("path_to_term({a},{b}) = {:?}, allowed {:?}", path, allowed));
+                if updist < 0 || path.len() as i64 != updist || !chain || (a != b && cur != b) {
+                    d.push(format!("path_to_ancestor({a},{b}) = {:?} is not a chain of parent links of length {updist} ending in {b}", path));
                 }
             }
             Ok(None) => {
-                if !allowed.is_empty() {
-                    d.push(format!("path_to_term({a},{b}) = None, allowed {:?}", allowed));
+                if updist >= 0 {
+                    d.push(format!("path_to_ancestor({a},{b}) = None although {b} is an ancestor (or the term itself) at distance {updist}"));
+                }
+            }
+            Err(e) => d.push(format!("path_to_ancestor({a},{b}) panicked: {e}")),
+        }
+        let dist = as_i64(&p["dist"]);
+        let got = ta.distance_to_term(&tb).map(|x| x as i64).unwrap_or(-1);
+        let rev = tb.distance_to_term(&ta).map(|x| x as i64).unwrap_or(-1);
+        if got != dist || rev != dist {
+            d.push(format!("distance_to_term({a},{b}) = {got} (reverse {rev}), expected {dist}"));
+        }
+        match catch(|| ta.path_to_term(&tb)) {
+            Ok(Some(path)) => {
+                let path: Vec<u32> = path.iter().map(|x| x.as_u32()).collect();
+                if a != b {
+                    let mut cur = a;
+                    let mut walk = true;
+                    for x in &path {
+                        walk &= linked(cur, *x);
+                        cur = *x;
+                    }
+                    if dist < 0 || path.len() as i64 != dist || !walk || cur != b {
+                        d.push(format!("path_to_term({a},{b}) = {:?} is not a walk along parent/child links with exactly {dist} steps ending in {b}", path));
+                    }
+                }
+            }
+            Ok(None) => {
+                if dist >= 0 {
+                    d.push(format!("path_to_term({a},{b}) = None although the terms share an ancestor (distance {dist})"));
                 }
             }
             Err(e) => d.push(format!("path_to_term({a},{b}) panicked: {e}")),
         }
-        let ids = |g: HpoGroup| -> Vec<u32> { g.iter().map(|x| x.as_u32()).collect() };
-        if ids(ta.common_ancestor_ids(&tb)) != cv(&p["common"]) {
-            d.push(format!("common_ancestor_ids({a},{b}) = {:?}, expected {:?}", ids(ta.common_ancestor_ids(&tb)), cv(&p["common"])));
-        }
-        if ids(ta.all_common_ancestor_ids(&tb)) != cv(&p["commonself"]) {
-            d.push(format!("all_common_ancestor_ids({a},{b}) = {:?}, expected {:?}", ids(ta.all_common_ancestor_ids(&tb)), cv(&p["commonself"])));
-        }
-        if ids(ta.union_ancestor_ids(&tb)) != cv(&p["union"]) || ids(ta.all_union_ancestor_ids(&tb)) != cv(&p["union"]) {
-            d.push(format!("union_ancestor_ids({a},{b}) = {:?}, expected {:?}", ids(ta.union_ancestor_ids(&tb)), cv(&p["union"])));
+        // the Distance similarity is 1 / (distance + 1), 0 without a common ancestor
+        {
+            use hpo::similarity::{Builtins, Similarity};
+            let sc = Builtins::Distance(hpo::term::InformationContentKind::Omim).calculate(&ta, &tb);
+            let want = if dist < 0 { 0.0 } else { 1.0 / (dist as f64 + 1.0) };
+            if !close_f32(sc, want, 1e-5, 1e-6) {
+                d.push(format!("Distance similarity({a},{b}) = {sc}, expected {want}"));
+            }
         }
     }
     for s in arr(&line["sets"]) {
-        st.bump("extra_set_queries", 1);
+        if !want_sets {
+            break;
+        }
+        st.bump("set_queries", 1);
+        st.evaluations += 1;
         let mut g = HpoGroup::new();
         for id in cv(&s["set"]) {
             g.insert(id);
@@ -297,9 +343,9 @@ fn check_extras(st: &mut Stats, line: &Value, conc: &Concretisation, ont: &Ontol
             }
         }
     }
-    if !d.is_empty() && st.violations.iter().filter(|v| v.property == "EXTRA").count() < 3 {
+    if !d.is_empty() && st.violations.len() < 8 {
         d.truncate(8);
-        st.violations.push(Violation { property: "EXTRA".into(), what: d[0].clone(), replay: json!({"cmd": "replay-sim", "property": "EXTRA", "line": line, "conc": conc.to_json(), "diffs": d}) });
+        st.violations.push(Violation { property: mode.to_string(), what: d[0].clone(), replay: json!({"cmd": "replay-sim", "property": mode, "line": line, "conc": conc.to_json(), "diffs": d}) });
     }
 }
 
@@ -345,9 +391,11 @@ pub fn replay_line(st: &mut Stats, prop: &str, seed: u64, idx: usize, line: &Val
             .collect();
         match via_builder(&scn, EdgeOrder::AsGiven, false, false) {
             Ok(ont) => {
-                check_ont(st, prop, line, &conc, "builder", &ont, &exp, &pairs);
-                if !arr(&line["paths"]).is_empty() {
-                    check_extras(st, line, &conc, &ont);
+                if prop == "C04" {
+                    check_ont(st, prop, line, &conc, "builder", &ont, &exp, &pairs);
+                } else {
+                    check_extras(st, line, &conc, &ont, prop);
+                    continue;
                 }
             }
             Err(e) => st.violations.push(Violation { property: prop.into(), what: format!("builder: {e}"), replay: json!({"cmd":"replay-sim","property":prop,"line":line,"conc":conc.to_json(),"diffs":[e]}) }),
